@@ -24,8 +24,10 @@ __ebd_read_array() {
 }
 
 # read -N usage requires bash-4.1 or so (EAPI 6 requires >= 4.2)
+# The size is a byte count: force the C locale for the read, else -N counts
+# characters of whatever locale the received env switched the shell to.
 __ebd_read_size() {
-	read -u ${PKGCORE_EBD_READ_FD} -r -N $1 $2
+	LC_ALL=C read -u ${PKGCORE_EBD_READ_FD} -r -N $1 $2
 	local ret=$?
 	[[ ${ret} -ne 0 ]] && \
 		die "coms error in ${PKGCORE_EBD_PID}, read_size $@ failed w/ ${ret}"
